@@ -41,7 +41,7 @@ Props(stage, clause) ==
     [] stage = "DayEnd.partition"                    -> {"C02"}
     [] stage = "RainPartition" /\ clause \in {"roSign", "roLeP", "split", "blocked"} -> {"C02"}
     [] stage = "DayEnd.bounds"                       -> {"C03"}
-    [] stage = "Init.bounds"                         -> {"C03"}
+    [] stage = "Init.bounds" /\ clause = "pond"      -> {"C03"}
     [] stage = "DayEnd.signs"                        -> {"C04"}
     [] stage = "Evaporate" /\ clause \in {"potSign", "sign", "lePot"} -> {"C04"}
     [] stage = "Transpire" /\ clause \in {"sign", "lePot", "offSeason"} -> {"C04"}
@@ -62,6 +62,7 @@ Props(stage, clause) ==
     [] stage = "Init.dates"                          -> {"C07"}
     [] stage = "Params"                              -> {"C12"}
     [] stage = "Irrigate"                            -> {"C13"}
+    [] stage = "GrowthStage" /\ clause = "stage"     -> {"C13"}
     [] stage = "DayEnd.irr"                          -> {"C13"}
     [] stage = "PreIrr" /\ clause = "disabled"       -> {"C13"}
     [] stage = "CheckGW" /\ clause \in {"range", "far", "series"} -> {"C19"}
@@ -92,7 +93,7 @@ St0 == [ws |-> [W |-> <<>>, pond |-> Z], fcAdj |-> <<>>, begin |-> [W |-> <<>>, 
                  finished |-> FALSE, nStats |-> 0],
         d |-> ZeroLedger, prev |-> [gddCum |-> Z, zroot |-> Z, hi |-> Z, hiadj |-> Z, b |-> Z, bns |-> Z],
         crop |-> [calendarType |-> 1], phash |-> [none |-> 0], seasonIrr |-> Z, irrSeason |-> -1,
-        stage |-> 0, irrCum |-> Z, exp |-> [none |-> 0], alive |-> TRUE, statIrr |-> Z, hasStat |-> FALSE]
+        stage |-> 0, germ |-> FALSE, delayedCds |-> Z, delayedGdds |-> Z, irrCum |-> Z, exp |-> [none |-> 0], alive |-> TRUE, statIrr |-> Z, hasStat |-> FALSE]
 
 WsOf(s, e) == [W |-> IF Has(e, "W") THEN e.W ELSE s.ws.W, pond |-> IF Has(e, "pond") THEN e.pond ELSE s.ws.pond]
 
@@ -255,6 +256,25 @@ Chk_CapRise(t, s, e) == Tag("CapRise", CapRiseC(K(t), s.ws, WsOf(s, e), CapArgs(
 Upd_CapRise(t, s, e) == [s EXCEPT !.ws = WsOf(s, e),
                                   !.d = [s.d EXCEPT !.crThick = RisenThick(K(t), s.ws, WsOf(s, e), CapArgs(t, s, e))]]
 
+\* ---- Germinate: once germinated a crop stays germinated for the season; while it has not, the delay counters advance
+GerminateC(t, s, e) ==
+  [ offSeason |-> (~e.gs) => (~e.germ /\ IsZero(e.delayedCds) /\ IsZero(e.delayedGdds)),
+    stays     |-> (e.gs /\ s.germ /\ s.clk.dap + 1 > 1) => e.germ,
+    delayCd   |-> (e.gs /\ ~e.germ) => Eq(e.delayedCds, Add(IF s.clk.dap + 1 = 1 THEN Z ELSE s.delayedCds, Units(1))),
+    delayGdd  |-> (e.gs /\ ~e.germ) => Near(e.delayedGdds, Add(IF s.clk.dap + 1 = 1 THEN Z ELSE s.delayedGdds, e.gdd), Tol9),
+    frozen    |-> (e.gs /\ e.germ /\ s.germ /\ s.clk.dap + 1 > 1) => (Eq(e.delayedCds, s.delayedCds) /\ Eq(e.delayedGdds, s.delayedGdds)) ]
+Chk_Germinate(t, s, e) == Tag("Germinate", GerminateC(t, s, e)) \cup Chk_Frame(t, s, e, "Germinate")
+Upd_Germinate(t, s, e) == [s EXCEPT !.ws = WsOf(s, e), !.germ = e.germ, !.delayedCds = e.delayedCds, !.delayedGdds = e.delayedGdds]
+
+\* ---- GrowthStage: exact - the stage follows the (delay-adjusted) time since planting against the crop's phenology
+\* (a time within 1e-9 of a phenological threshold is a tie between exact and floating-point comparison: both stages accepted)
+StageAt(t, e) == IF Le(t, e.c10) THEN 1 ELSE IF Le(t, e.maxc) THEN 2 ELSE IF Le(t, e.sen) THEN 3 ELSE 4
+StagesOk(e) == {StageAt(Sub(e.tadj, Tol9), e), StageAt(e.tadj, e), StageAt(Add(e.tadj, Tol9), e)}
+GrowthStageC(t, s, e) ==
+  [ offSeason |-> (~e.gs) => e.stage = 0,
+    stage     |-> e.gs => e.stage \in StagesOk(e),
+    monotone  |-> (e.gs /\ s.clk.dap + 1 > 1 /\ s.stage > 0) => e.stage >= s.stage \/ ~Eq(s.delayedCds, s.delayedCds) ]
+Chk_GrowthStage(t, s, e) == Tag("GrowthStage", GrowthStageC(t, s, e)) \cup Chk_Frame(t, s, e, "GrowthStage")
 \* ---- GrowthStage / Canopy (values carried to the day-end clauses)
 Upd_GrowthStage(t, s, e) == [s EXCEPT !.ws = WsOf(s, e), !.d = [s.d EXCEPT !.stageNow = e.stage]]
 Upd_Canopy(t, s, e) == [s EXCEPT !.ws = WsOf(s, e), !.d = [s.d EXCEPT !.dead = e.dead]]
@@ -397,7 +417,8 @@ Upd_Advance(t, s, e) ==
             !.crop = IF e.reset THEN e.crop ELSE s.crop,
             !.seasonIrr = IF e.reset THEN Z ELSE s.seasonIrr,
             !.hasStat = IF e.reset THEN FALSE ELSE s.hasStat,
-            !.stage = IF e.reset THEN 0 ELSE s.stage]
+            !.stage = IF e.reset THEN 0 ELSE s.stage,
+            !.germ = IF e.reset THEN FALSE ELSE s.germ]
 
 
 (***************************************************************************)
@@ -414,8 +435,8 @@ Chk(t, s, e) ==
     [] e.e = "Irrigate"      -> Chk_Irrigate(t, s, e)
     [] e.e = "Infiltrate"    -> Chk_Infiltrate(t, s, e)
     [] e.e = "CapRise"       -> Chk_CapRise(t, s, e)
-    [] e.e = "Germinate"     -> Chk_Frame(t, s, e, "Germinate")
-    [] e.e = "GrowthStage"   -> Chk_Frame(t, s, e, "GrowthStage")
+    [] e.e = "Germinate"     -> Chk_Germinate(t, s, e)
+    [] e.e = "GrowthStage"   -> Chk_GrowthStage(t, s, e)
     [] e.e = "Canopy"        -> Chk_Frame(t, s, e, "Canopy")
     [] e.e = "Evaporate"     -> Chk_Evaporate(t, s, e)
     [] e.e = "Transpire"     -> Chk_Transpire(t, s, e)
@@ -444,7 +465,8 @@ Upd(t, s, e) ==
     [] e.e = "RootZone"      -> Upd_RootZone(t, s, e)
     [] e.e = "DayEnd"        -> Upd_DayEnd(t, s, e)
     [] e.e = "Advance"       -> Upd_Advance(t, s, e)
-    [] e.e \in {"Drain", "RainPartition", "Germinate", "Evaporate", "GwInflow", "HarvestIndex"} -> Upd_Frame(t, s, e)
+    [] e.e = "Germinate"     -> Upd_Germinate(t, s, e)
+    [] e.e \in {"Drain", "RainPartition", "Evaporate", "GwInflow", "HarvestIndex"} -> Upd_Frame(t, s, e)
     [] OTHER                 -> s
 
 (***************************************************************************)
